@@ -13,20 +13,23 @@ open AcVerif.StreamP AcVerif.StdP
 variable {α : Type} [DecidableEq α]
 
 /-- concatenating all chunk bytes gives back the stream, and each match chunk
-carries exactly the matched bytes -/
+carries exactly the matched bytes (any buffer constants with `min < cap`) -/
 theorem C08_chunks_concat (P : List (List α)) (_hP : P ≠ []) (hne : ∀ p ∈ P, p ≠ [])
     (sk : StartKind) (hsk : supportsAnch sk false) (data : List α) (sched : List Nat)
-    (hs : ∀ x ∈ sched, 1 ≤ x) (spare : Option Nat) :
+    (hs : ∀ x ∈ sched, 1 ≤ x) (spare : Option Nat) (minFactor defaultCap : Nat)
+    (hcap : (Buffer.new (α := α) (ideal .std P sk false).maxLen spare minFactor defaultCap).min <
+        (Buffer.new (α := α) (ideal .std P sk false).maxLen spare minFactor defaultCap).cap) :
     ∃ it cs,
-      ChunkIter.new (ideal .std P sk false) { data := data, sched := sched } spare = .ok it ∧
+      ChunkIter.new (ideal .std P sk false) { data := data, sched := sched } spare
+        minFactor defaultCap = .ok it ∧
       ChunkIter.drain (ideal .std P sk false) (drainFuel data) it = (cs, false, 0) ∧
       (cs.flatMap fun c => match c with | .nonMatch b => b | .mtch b _ => b) = data ∧
       ∀ b m, Chunk.mtch b m ∈ cs → b = (data.take m.stop).drop m.start := by
   obtain ⟨it, cs, err, hnew, hd, hsp, he, _⟩ :=
-    stream_master P sk hsk hne data sched hs spare none
+    stream_master P sk hsk hne data sched hs spare minFactor defaultCap hcap none
   have herr := he rfl
   subst herr
-  have H := hyp_ideal P sk hsk hne data sched hs spare
+  have H := hyp_ideal P sk hsk hne data sched hs spare minFactor defaultCap hcap
   obtain ⟨h1, h2⟩ := spec_concat H.FOK hsp (Nat.zero_le _)
   refine ⟨it, cs, hnew, hd, ?_, h2⟩
   have e : (fun c : Chunk α => match c with | .nonMatch b => b | .mtch b _ => b) = chunkBytes := by
@@ -36,6 +39,73 @@ theorem C08_chunks_concat (P : List (List α)) (_hP : P ≠ []) (hne : ∀ p ∈
 
 theorem C08_replace_eq (P : List (List α)) (_hP : P ≠ []) (hne : ∀ p ∈ P, p ≠ [])
     (sk : StartKind) (hsk : supportsAnch sk false) (data : List α) (sched : List Nat)
+    (hs : ∀ x ∈ sched, 1 ≤ x) (spare : Option Nat) (minFactor defaultCap : Nat)
+    (hcap : (Buffer.new (α := α) (ideal .std P sk false).maxLen spare minFactor defaultCap).min <
+        (Buffer.new (α := α) (ideal .std P sk false).maxLen spare minFactor defaultCap).cap)
+    (repl : Mat → List α) :
+    ∃ ms,
+      findIter (ideal .std P sk false) none
+        { hay := data, s := 0, e := data.length, anch := false, earliest := false,
+          valid := ⟨Nat.le_refl _, Nat.zero_le _⟩ } = .ok ms ∧
+      streamReplaceWith (ideal .std P sk false) { data := data, sched := sched } spare {} repl
+        minFactor defaultCap =
+        .ok ({ out := (replaceBytes data ms repl none).1 },
+          (replaceBytes data ms repl none).2, true, 0) := by
+  obtain ⟨it, cs, err, hnew, hd, hsp, he, hgo⟩ :=
+    stream_master P sk hsk hne data sched hs spare minFactor defaultCap hcap none
+  have herr := he rfl
+  subst herr
+  have H := hyp_ideal P sk hsk hne data sched hs spare minFactor defaultCap hcap
+  have hm := (spec_mats H.FOK hsp (Nat.zero_le _)).2 rfl
+  refine ⟨_, findIter_eq P sk hsk data, ?_⟩
+  rw [iter_findAt P sk hsk hne data, ← hm]
+  have hr := spec_replace repl hsp (Nat.le_refl _) 0 [] []
+  rw [slice_self, List.append_nil] at hr
+  simp only [streamReplaceWith, hnew, hgo]
+  rw [hr]
+  rfl
+
+/-! ## corollaries: the default constants, any factor `≥ 2`, explicit spare room -/
+
+/-- the default constants (factor 8, 64 KiB) -/
+theorem C08_chunks_concat_default (P : List (List α)) (_hP : P ≠ []) (hne : ∀ p ∈ P, p ≠ [])
+    (sk : StartKind) (hsk : supportsAnch sk false) (data : List α) (sched : List Nat)
+    (hs : ∀ x ∈ sched, 1 ≤ x) (spare : Option Nat) :
+    ∃ it cs,
+      ChunkIter.new (ideal .std P sk false) { data := data, sched := sched } spare = .ok it ∧
+      ChunkIter.drain (ideal .std P sk false) (drainFuel data) it = (cs, false, 0) ∧
+      (cs.flatMap fun c => match c with | .nonMatch b => b | .mtch b _ => b) = data ∧
+      ∀ b m, Chunk.mtch b m ∈ cs → b = (data.take m.stop).drop m.start :=
+  C08_chunks_concat P _hP hne sk hsk data sched hs spare 8 (64 * 1024) (hcap_default _ spare)
+
+/-- production-shaped capacity `max (min * minFactor) defaultCap`, any `minFactor ≥ 2` -/
+theorem C08_chunks_concat_factor (P : List (List α)) (_hP : P ≠ []) (hne : ∀ p ∈ P, p ≠ [])
+    (sk : StartKind) (hsk : supportsAnch sk false) (data : List α) (sched : List Nat)
+    (hs : ∀ x ∈ sched, 1 ≤ x) (minFactor defaultCap : Nat) (hf : 2 ≤ minFactor) :
+    ∃ it cs,
+      ChunkIter.new (ideal .std P sk false) { data := data, sched := sched } none
+        minFactor defaultCap = .ok it ∧
+      ChunkIter.drain (ideal .std P sk false) (drainFuel data) it = (cs, false, 0) ∧
+      (cs.flatMap fun c => match c with | .nonMatch b => b | .mtch b _ => b) = data ∧
+      ∀ b m, Chunk.mtch b m ∈ cs → b = (data.take m.stop).drop m.start :=
+  C08_chunks_concat P _hP hne sk hsk data sched hs none minFactor defaultCap
+    (hcap_factor _ minFactor defaultCap hf)
+
+/-- explicit spare room `min + max 1 sp`, whatever the constants -/
+theorem C08_chunks_concat_spare (P : List (List α)) (_hP : P ≠ []) (hne : ∀ p ∈ P, p ≠ [])
+    (sk : StartKind) (hsk : supportsAnch sk false) (data : List α) (sched : List Nat)
+    (hs : ∀ x ∈ sched, 1 ≤ x) (sp minFactor defaultCap : Nat) :
+    ∃ it cs,
+      ChunkIter.new (ideal .std P sk false) { data := data, sched := sched } (some sp)
+        minFactor defaultCap = .ok it ∧
+      ChunkIter.drain (ideal .std P sk false) (drainFuel data) it = (cs, false, 0) ∧
+      (cs.flatMap fun c => match c with | .nonMatch b => b | .mtch b _ => b) = data ∧
+      ∀ b m, Chunk.mtch b m ∈ cs → b = (data.take m.stop).drop m.start :=
+  C08_chunks_concat P _hP hne sk hsk data sched hs (some sp) minFactor defaultCap
+    (hcap_spare _ sp minFactor defaultCap)
+
+theorem C08_replace_eq_default (P : List (List α)) (_hP : P ≠ []) (hne : ∀ p ∈ P, p ≠ [])
+    (sk : StartKind) (hsk : supportsAnch sk false) (data : List α) (sched : List Nat)
     (hs : ∀ x ∈ sched, 1 ≤ x) (spare : Option Nat) (repl : Mat → List α) :
     ∃ ms,
       findIter (ideal .std P sk false) none
@@ -43,20 +113,37 @@ theorem C08_replace_eq (P : List (List α)) (_hP : P ≠ []) (hne : ∀ p ∈ P,
           valid := ⟨Nat.le_refl _, Nat.zero_le _⟩ } = .ok ms ∧
       streamReplaceWith (ideal .std P sk false) { data := data, sched := sched } spare {} repl =
         .ok ({ out := (replaceBytes data ms repl none).1 },
-          (replaceBytes data ms repl none).2, true, 0) := by
-  obtain ⟨it, cs, err, hnew, hd, hsp, he, hgo⟩ :=
-    stream_master P sk hsk hne data sched hs spare none
-  have herr := he rfl
-  subst herr
-  have H := hyp_ideal P sk hsk hne data sched hs spare
-  have hm := (spec_mats H.FOK hsp (Nat.zero_le _)).2 rfl
-  refine ⟨_, findIter_eq P sk hsk data, ?_⟩
-  rw [iter_findAt P sk hsk hne data sched hs spare, ← hm]
-  have hr := spec_replace repl hsp (Nat.le_refl _) 0 [] []
-  rw [slice_self, List.append_nil] at hr
-  simp only [streamReplaceWith, hnew, hgo]
-  rw [hr]
-  rfl
+          (replaceBytes data ms repl none).2, true, 0) :=
+  C08_replace_eq P _hP hne sk hsk data sched hs spare 8 (64 * 1024) (hcap_default _ spare) repl
+
+theorem C08_replace_eq_factor (P : List (List α)) (_hP : P ≠ []) (hne : ∀ p ∈ P, p ≠ [])
+    (sk : StartKind) (hsk : supportsAnch sk false) (data : List α) (sched : List Nat)
+    (hs : ∀ x ∈ sched, 1 ≤ x) (minFactor defaultCap : Nat) (hf : 2 ≤ minFactor)
+    (repl : Mat → List α) :
+    ∃ ms,
+      findIter (ideal .std P sk false) none
+        { hay := data, s := 0, e := data.length, anch := false, earliest := false,
+          valid := ⟨Nat.le_refl _, Nat.zero_le _⟩ } = .ok ms ∧
+      streamReplaceWith (ideal .std P sk false) { data := data, sched := sched } none {} repl
+        minFactor defaultCap =
+        .ok ({ out := (replaceBytes data ms repl none).1 },
+          (replaceBytes data ms repl none).2, true, 0) :=
+  C08_replace_eq P _hP hne sk hsk data sched hs none minFactor defaultCap
+    (hcap_factor _ minFactor defaultCap hf) repl
+
+theorem C08_replace_eq_spare (P : List (List α)) (_hP : P ≠ []) (hne : ∀ p ∈ P, p ≠ [])
+    (sk : StartKind) (hsk : supportsAnch sk false) (data : List α) (sched : List Nat)
+    (hs : ∀ x ∈ sched, 1 ≤ x) (sp minFactor defaultCap : Nat) (repl : Mat → List α) :
+    ∃ ms,
+      findIter (ideal .std P sk false) none
+        { hay := data, s := 0, e := data.length, anch := false, earliest := false,
+          valid := ⟨Nat.le_refl _, Nat.zero_le _⟩ } = .ok ms ∧
+      streamReplaceWith (ideal .std P sk false) { data := data, sched := sched } (some sp) {} repl
+        minFactor defaultCap =
+        .ok ({ out := (replaceBytes data ms repl none).1 },
+          (replaceBytes data ms repl none).2, true, 0) :=
+  C08_replace_eq P _hP hne sk hsk data sched hs (some sp) minFactor defaultCap
+    (hcap_spare _ sp minFactor defaultCap) repl
 
 /-! ## non-vacuity: a match split across reads, capacity `min + 1` -/
 
@@ -69,8 +156,21 @@ example (repl : Mat → List Nat) : ∃ ms,
       { data := [0, 1, 2, 3, 4, 1, 2, 3], sched := [2, 1, 3, 1] } (some 1) {} repl =
       .ok ({ out := (replaceBytes [0, 1, 2, 3, 4, 1, 2, 3] ms repl none).1 },
         (replaceBytes [0, 1, 2, 3, 4, 1, 2, 3] ms repl none).2, true, 0) :=
-  C08_replace_eq [[1, 2, 3], [3, 4]] (by decide) (by decide) .both (Or.inl rfl)
+  C08_replace_eq_default [[1, 2, 3], [3, 4]] (by decide) (by decide) .both (Or.inl rfl)
     [0, 1, 2, 3, 4, 1, 2, 3] [2, 1, 3, 1] (by decide) (some 1) repl
+
+/-- the general theorem's `hcap` is satisfiable with non-default constants
+(factor 2, default capacity 0: a 6-byte buffer for `min = 3`) -/
+example (repl : Mat → List Nat) : ∃ ms,
+    findIter (ideal .std [[1, 2, 3], [3, 4]] .both false) none
+      { hay := [0, 1, 2, 3, 4, 1, 2, 3], s := 0, e := 8, anch := false, earliest := false,
+        valid := ⟨Nat.le_refl _, Nat.zero_le _⟩ } = .ok ms ∧
+    streamReplaceWith (ideal .std [[1, 2, 3], [3, 4]] .both false)
+      { data := [0, 1, 2, 3, 4, 1, 2, 3], sched := [2, 1, 3, 1] } none {} repl 2 0 =
+      .ok ({ out := (replaceBytes [0, 1, 2, 3, 4, 1, 2, 3] ms repl none).1 },
+        (replaceBytes [0, 1, 2, 3, 4, 1, 2, 3] ms repl none).2, true, 0) :=
+  C08_replace_eq [[1, 2, 3], [3, 4]] (by decide) (by decide) .both (Or.inl rfl)
+    [0, 1, 2, 3, 4, 1, 2, 3] [2, 1, 3, 1] (by decide) none 2 0 (by decide) repl
 
 /-- the chunk sequence: reads of 2, 1, 3, 1, … bytes into a 4-byte buffer -/
 example : (ChunkIter.new (ideal .std [[1, 2, 3], [3, 4]] .both false)
